@@ -232,6 +232,14 @@ let do_seq line args res =
              prop "stale_ts_bounds" ((lo <=! vp) && (vp <=! hi) && zeq (extract_logical v) Z0) line ("expected physical in [" ^ hz lo ^ "," ^ hz hi ^ "]")
            end else bump "S:overflow-skip"
        | _ -> ())
+  | ["M"; pd] ->
+      (* pass-through of PD's GetMinTS: exactly compose(p,l), the cached timestamps are not touched *)
+      cmp (match parse_pd pd with Some (p, l) -> "ok " ^ hz (compose_ts p l) | None -> "err")
+  | ["E"; ts] ->
+      (* pass-through of PD's external timestamp cell (the scripted PD refuses 0) *)
+      let v = zh ts in
+      if zeq v Z0 then cmp ("0\t" ^ (match Hashtbl.find_opt s.lastseen "ext" with Some e -> "ok " ^ hz e | None -> "ok 0"))
+      else begin Hashtbl.replace s.lastseen "ext" v; cmp ("1\tok " ^ hz v) end
   | ["I"; ns] -> cmp (b01 (Z0 <! zh ns))
   | _ -> ()
 
